@@ -9,9 +9,9 @@ git -C $S checkout -q --detach $(git -C /repo rev-parse HEAD) 2>/dev/null
 git -C $S checkout -q -- . ; git -C $S clean -fdq
 if ! git -C $S apply "$PATCH" 2>/tmp/scratch.apply.err; then echo "PATCH DOES NOT APPLY: $(cat /tmp/scratch.apply.err | head -3)"; exit 3; fi
 R=${VERIF_ROOT:-/verif}
-cd $R && VERIF_ROOT=$R VERIF_REPO=$S ./bin/vcheck $ID --tier $TIER > /tmp/mutest.$ID.out 2>&1; rc=$?
-nv=$(grep -c '^VIOLATION' /tmp/mutest.$ID.out)
-echo "== $ID $(basename $(dirname $PATCH)) rc=$rc violations_listed=$nv :: $(tail -1 /tmp/mutest.$ID.out)"
-grep -m2 -A3 '^VIOLATION\|^HARNESS' /tmp/mutest.$ID.out | cut -c1-300
+cd $R && VERIF_ROOT=$R VERIF_REPO=$S ./bin/vcheck $ID --tier $TIER > /tmp/mutest.$ID.${MUTEST_TAG:-$$}.out 2>&1; rc=$?
+nv=$(grep -c '^VIOLATION' /tmp/mutest.$ID.${MUTEST_TAG:-$$}.out)
+echo "== $ID $(basename $(dirname $PATCH)) rc=$rc violations_listed=$nv :: $(tail -1 /tmp/mutest.$ID.${MUTEST_TAG:-$$}.out)"
+grep -m2 -A3 '^VIOLATION\|^HARNESS' /tmp/mutest.$ID.${MUTEST_TAG:-$$}.out | cut -c1-300
 git -C $S checkout -q -- . ; git -C $S clean -fdq
 exit $rc
